@@ -74,6 +74,21 @@ func cellsToSegs(cs []cell) []seg {
 	return out
 }
 
+// mergeSegs joins adjacent fixed pieces of one source whose byte ranges continue each other
+// (x[5] x[4] ... -> x[5..4]): the layout is a byte sequence however it was put together.
+func mergeSegs(ss []seg) []seg {
+	var out []seg
+	for _, s := range ss {
+		if n := len(out); n > 0 && !s.vari && s.zeroes == 0 && !out[n-1].vari && out[n-1].zeroes == 0 &&
+			out[n-1].src == s.src && !strings.HasPrefix(s.src, "0x") && out[n-1].lo == s.hi+1 {
+			out[n-1].lo = s.lo
+			continue
+		}
+		out = append(out, s)
+	}
+	return out
+}
+
 // srcDesc renders the source of a value with integer conversions stripped.
 // phiResolve, when set, maps phis to the value they take on the path under consideration
 // (filled from a Walk); the layout functions then describe that value instead of giving up.
@@ -310,6 +325,35 @@ func bytesOf(v ssa.Value, w int, d int) []cell {
 		}
 	case *ssa.ChangeType:
 		return bytesOf(x.X, w, d+1)
+	case *ssa.Call:
+		// binary.BigEndian.UintN(s): the first N bytes of s, most significant first
+		name := calleeName(&x.Call)
+		if n := map[string]int{"(encoding/binary.bigEndian).Uint16": 2, "(encoding/binary.bigEndian).Uint32": 4, "(encoding/binary.bigEndian).Uint64": 8}[name]; n > 0 && len(x.Call.Args) == 2 && n <= w {
+			base, off := x.Call.Args[1], int64(0)
+			okBase := true
+			for {
+				sl, isSl := base.(*ssa.Slice)
+				if !isSl {
+					break
+				}
+				if sl.Low != nil {
+					k, isK := constInt(sl.Low)
+					if !isK {
+						okBase = false
+						break
+					}
+					off += k
+				}
+				base = sl.X
+			}
+			if okBase {
+				bd := srcDesc(base)
+				for i := 0; i < n; i++ {
+					out[w-n+i] = cell{src: fmt.Sprintf("%s[%d]", bd, off+int64(i)), set: true}
+				}
+				return out
+			}
+		}
 	case *ssa.BinOp:
 		switch x.Op {
 		case token.OR, token.ADD, token.XOR:
@@ -720,10 +764,129 @@ func (c *Ctx) LayoutOf(v ssa.Value, at ssa.Instruction, d int) ([]seg, *layoutEr
 		if r, ok := phiResolve[x]; ok && r != ssa.Value(x) {
 			return c.LayoutOf(r, at, d+1)
 		}
+		if phiEmpty[x] {
+			return nil, nil
+		}
+		// the accumulator of a counting loop with a constant number of turns: the initial value
+		// followed by what each turn appends
+		if l, err, ok := c.countedLoopLayout(x, at, d); ok {
+			return l, err
+		}
 		// the zero-length initial value merged with an appended value in `var x []byte; if..{x = append(x,...)}` is not straight-line
 		return nil, &layoutErr{"value depends on control flow (phi)"}
 	}
 	return []seg{{src: srcDesc(v), vari: true}}, nil
+}
+
+// phiEmpty marks the accumulator phi of a loop being unrolled: inside one turn it stands for
+// "what was there before", which the unrolling accounts for itself.
+var phiEmpty = map[*ssa.Phi]bool{}
+
+// countedLoopLayout: acc is the header phi of `for i := k0; i <cmp> bound; i += step { acc =
+// append(acc, f(i)...) }` with constant k0, bound and step, the loop has one latch and one exit
+// test (in the header), and at most 64 turns. The layout is that of the initial value followed by
+// the layout of every turn's addition, with the counter given its value of that turn.
+func (c *Ctx) countedLoopLayout(acc *ssa.Phi, at ssa.Instruction, d int) ([]seg, *layoutErr, bool) {
+	hdr := acc.Block()
+	if len(acc.Edges) != 2 || len(hdr.Preds) != 2 {
+		return nil, nil, false
+	}
+	var loop *natLoop
+	for _, l := range naturalLoops(hdr.Parent()) {
+		if l.header == hdr {
+			loop = l
+		}
+	}
+	if loop == nil || len(loop.latches) != 1 {
+		return nil, nil, false
+	}
+	latchIdx := -1
+	for i, p := range hdr.Preds {
+		if p == loop.latches[0] {
+			latchIdx = i
+		}
+	}
+	if latchIdx < 0 {
+		return nil, nil, false
+	}
+	// the exit test
+	iff, ok := hdr.Instrs[len(hdr.Instrs)-1].(*ssa.If)
+	if !ok {
+		return nil, nil, false
+	}
+	cond, ok := iff.Cond.(*ssa.BinOp)
+	if !ok || !loop.blocks[hdr.Succs[0]] || loop.blocks[hdr.Succs[1]] {
+		return nil, nil, false
+	}
+	// no other way out of the loop
+	for b := range loop.blocks {
+		if b == hdr {
+			continue
+		}
+		for _, su := range b.Succs {
+			if !loop.blocks[su] {
+				return nil, nil, false
+			}
+		}
+	}
+	ctr, ok := stripConv(cond.X).(*ssa.Phi)
+	bound, isK := constInt(cond.Y)
+	if !ok || !isK || ctr.Block() != hdr || len(ctr.Edges) != 2 {
+		return nil, nil, false
+	}
+	k0, isK0 := constInt(ctr.Edges[1-latchIdx])
+	inc, isInc := ctr.Edges[latchIdx].(*ssa.BinOp)
+	if !isK0 || !isInc || inc.X != ssa.Value(ctr) || (inc.Op != token.ADD && inc.Op != token.SUB) {
+		return nil, nil, false
+	}
+	step, isStep := constInt(inc.Y)
+	if !isStep || step == 0 {
+		return nil, nil, false
+	}
+	if inc.Op == token.SUB {
+		step = -step
+	}
+	holds := func(i int64) bool {
+		switch cond.Op {
+		case token.LSS:
+			return i < bound
+		case token.LEQ:
+			return i <= bound
+		case token.GTR:
+			return i > bound
+		case token.GEQ:
+			return i >= bound
+		case token.NEQ:
+			return i != bound
+		}
+		return false
+	}
+	out, err := c.LayoutOf(acc.Edges[1-latchIdx], at, d+1)
+	if err != nil {
+		return nil, err, true
+	}
+	out = append([]seg{}, out...)
+	turns := 0
+	for i := k0; holds(i); i += step {
+		turns++
+		if turns > 64 {
+			return nil, &layoutErr{"counting loop with more than 64 turns"}, true
+		}
+		oldOv := constOverride
+		constOverride = map[ssa.Value]int64{ctr: i}
+		for k, v := range oldOv {
+			constOverride[k] = v
+		}
+		phiEmpty[acc] = true
+		l, e := c.LayoutOf(acc.Edges[latchIdx], loop.latches[0].Instrs[len(loop.latches[0].Instrs)-1], d+1)
+		delete(phiEmpty, acc)
+		constOverride = oldOv
+		if e != nil {
+			return nil, e, true
+		}
+		out = append(out, l...)
+	}
+	return mergeSegs(out), nil, true
 }
 
 // builderLayout interprets the Add* calls on one cryptobyte.Builder that dominate `at`.
@@ -960,6 +1123,7 @@ func (c *Ctx) helperLayout(call *ssa.Call, idx int, at ssa.Instruction, d int) (
 		return nil, nil, false
 	}
 	var ret *ssa.Return
+	several := false
 	for _, b := range g.Blocks {
 		r, ok := b.Instrs[len(b.Instrs)-1].(*ssa.Return)
 		if !ok {
@@ -975,7 +1139,7 @@ func (c *Ctx) helperLayout(call *ssa.Call, idx int, at ssa.Instruction, d int) (
 			continue
 		}
 		if ret != nil {
-			return nil, &layoutErr{"helper " + short(g) + " has several value-returning exits"}, true
+			several = true
 		}
 		ret = r
 	}
@@ -984,12 +1148,43 @@ func (c *Ctx) helperLayout(call *ssa.Call, idx int, at ssa.Instruction, d int) (
 	}
 	var inner []seg
 	var err *layoutErr
-	oldPath, oldPhi := curPath, phiResolve
-	curPath, phiResolve = nil, nil
-	inner, err = c.LayoutOf(unspill(ret.Results[idx]), ret, d+1)
-	curPath, phiResolve = oldPath, oldPhi
-	if err != nil {
-		return nil, err, true
+	if several {
+		// several exits: under the assumptions of the caller's path exploration the helper may
+		// still take one of them only (a role switch); every path it takes must then agree
+		if layoutAssume == nil {
+			return nil, &layoutErr{"helper " + short(g) + " has several value-returning exits"}, true
+		}
+		w := (&Walk{Fn: g, Assume: assumeAll(layoutAssume...)}).FromEntry()
+		if w.overflow || len(w.Returns) == 0 {
+			return nil, &layoutErr{"helper " + short(g) + " has several value-returning exits"}, true
+		}
+		seen := ""
+		for _, ro := range w.Returns {
+			if idx >= len(ro.Raw) {
+				return nil, nil, false
+			}
+			var l []seg
+			var e *layoutErr
+			oldPhi := phiResolve
+			withPath(w, func() { withPhis(ro.RawEnv, func() { l, e = c.LayoutOf(unspill(ro.Raw[idx]), ro.Ret, d+1) }) })
+			phiResolve = oldPhi
+			if e != nil {
+				return nil, e, true
+			}
+			k := fmt.Sprint(l)
+			if seen != "" && k != seen {
+				return nil, &layoutErr{"helper " + short(g) + " has several value-returning exits that differ under the assumed role"}, true
+			}
+			seen, inner = k, l
+		}
+	} else {
+		oldPath, oldPhi := curPath, phiResolve
+		curPath, phiResolve = nil, nil
+		inner, err = c.LayoutOf(unspill(ret.Results[idx]), ret, d+1)
+		curPath, phiResolve = oldPath, oldPhi
+		if err != nil {
+			return nil, err, true
+		}
 	}
 	// substitute parameters
 	var out []seg
